@@ -365,7 +365,12 @@ func (r *run) do(a Action, where string, from *comp) (delivered bool) {
 			h, _ := c.live()
 			rep := func() {
 				r.log(event{Kind: "fatal-report", Gen: c.gen, Name: c.name, Info: where})
-				componentstatus.ReportStatus(h, componentstatus.NewFatalErrorEvent(fmt.Errorf("injected fatal error gen %d %s", c.gen, c.name)))
+				if r.fatalPlanned.Load()%3 == 2 {
+					// a fatal status without an error value is a fatal status all the same
+					componentstatus.ReportStatus(h, componentstatus.NewEvent(componentstatus.StatusFatalError))
+				} else {
+					componentstatus.ReportStatus(h, componentstatus.NewFatalErrorEvent(fmt.Errorf("injected fatal error gen %d %s", c.gen, c.name)))
+				}
 				r.fatalBack.Add(1)
 				r.log(event{Kind: "fatal-report-returned", Gen: c.gen, Name: c.name})
 			}
